@@ -68,18 +68,22 @@ type verifDelRows struct {
 }
 
 type verifDelObs struct {
-	ID         int                 `json:"id"`
-	Before     []verifDelRows      `json:"before"`
-	Verdicts   map[string][]string `json:"verdicts"` // path -> "T"/"F"/"U" per row
-	Unbound    []string            `json:"unbound"`  // files against which the WHERE does not bind when read alone (verdict taken from the union_by_name read)
-	VerdictErr string              `json:"verdict_err"`
-	Dry        verifDelResp        `json:"dry"`
-	DryBytesOK bool                `json:"dry_bytes_unchanged"` // every data file byte-identical after the dry run
-	DryFiles   []verifDelRows      `json:"dry_files"`           // re-read only when the bytes changed
-	Real       verifDelResp        `json:"real"`
-	After      []verifDelRows      `json:"after"`
-	SiblingOK  bool                `json:"sibling_ok"`
-	Leftovers  []string            `json:"leftovers"` // non-parquet files/dirs left under the measurement (e.g. .tmp)
+	ID       int                 `json:"id"`
+	Before   []verifDelRows      `json:"before"`
+	Verdicts map[string][]string `json:"verdicts"` // path -> "T"/"F"/"U" per row
+	// Search: what ONE union read over all files returns for  ... WHERE <where>  (the construct the
+	// handler's affected-file search uses): path -> ids of the returned rows
+	Search     map[string][]int64 `json:"search"`
+	SearchErr  string             `json:"search_err"`
+	Unbound    []string           `json:"unbound"` // files against which the WHERE does not bind when read alone (verdict taken from the union_by_name read)
+	VerdictErr string             `json:"verdict_err"`
+	Dry        verifDelResp       `json:"dry"`
+	DryBytesOK bool               `json:"dry_bytes_unchanged"` // every data file byte-identical after the dry run
+	DryFiles   []verifDelRows     `json:"dry_files"`           // re-read only when the bytes changed
+	Real       verifDelResp       `json:"real"`
+	After      []verifDelRows     `json:"after"`
+	SiblingOK  bool               `json:"sibling_ok"`
+	Leftovers  []string           `json:"leftovers"` // non-parquet files/dirs left under the measurement (e.g. .tmp)
 }
 
 func verifQueryRows(ctx context.Context, db *sql.DB, q string) ([][]interface{}, error) {
@@ -297,6 +301,31 @@ func TestVerifDelete(t *testing.T) {
 			o.Verdicts[p] = vs
 			o.Unbound = append(o.Unbound, p)
 			o.Before = append(o.Before, verifReadAll(t, ctx, db, root, []string{p}, c.SelectList, perFile)...)
+		}
+		o.Search = map[string][]int64{}
+		if len(paths) > 0 && strings.TrimSpace(c.Where) != "" {
+			srows, serr := verifQueryRows(ctx, db, fmt.Sprintf(
+				"SELECT filename, id FROM read_parquet([%s], filename=true, union_by_name=true) WHERE %s", allList.String(), c.Where))
+			if serr != nil {
+				o.SearchErr = serr.Error()
+			} else {
+				for _, r := range srows {
+					fn, _ := r[0].(string)
+					rel, rerr := filepath.Rel(root, fn)
+					if rerr != nil {
+						rel = fn
+					}
+					rel = filepath.ToSlash(rel)
+					var id int64
+					switch v := r[1].(type) {
+					case int64:
+						id = v
+					case int32:
+						id = int64(v)
+					}
+					o.Search[rel] = append(o.Search[rel], id)
+				}
+			}
 		}
 		if o.VerdictErr != "" {
 			o.Before = verifReadAll(t, ctx, db, root, paths, c.SelectList, perFile)
